@@ -16,7 +16,11 @@ import types
 
 mon = sys.monitoring
 TOOL = 3
-_INTEREST = {"LOAD_ATTR", "STORE_ATTR", "LOAD_DEREF", "STORE_DEREF", "BINARY_SUBSCR", "STORE_SUBSCR", "CALL", "LOAD_GLOBAL"}
+_INTEREST = {"LOAD_ATTR", "STORE_ATTR", "LOAD_DEREF", "STORE_DEREF", "BINARY_SUBSCR", "STORE_SUBSCR", "CALL"}
+# coarse granularity: shared *writes* and calls only (a preemption just before a write still separates every check from its act)
+_COARSE = {"STORE_ATTR", "STORE_DEREF", "STORE_SUBSCR", "CALL"}
+GRANULARITY = "fine"
+_offsets_coarse = {}
 _registered = {}
 _offsets = {}
 _active = None
@@ -41,7 +45,7 @@ def _on_instr(code, offset):
     idx = g.ident2idx.get(threading.get_ident())
     if idx is None:
         return
-    if offset in _offsets.get(code, ()):
+    if offset in (_offsets if GRANULARITY == "fine" else _offsets_coarse).get(code, ()):
         g.yield_point(idx, (code.co_name, offset))
 
 
@@ -79,6 +83,7 @@ def watch(*modules):
                     continue
                 _registered[code] = True
                 _offsets[code] = {i.offset for i in dis.get_instructions(code) if i.opname in _INTEREST}
+                _offsets_coarse[code] = {i.offset for i in dis.get_instructions(code) if i.opname in _COARSE}
                 mon.set_local_events(TOOL, code, mon.events.INSTRUCTION)
 
 
@@ -174,8 +179,14 @@ class Gate:
             for (p, tgt) in preempts:
                 if pos == p:
                     for i in range(len(self.done)):
-                        if tgt == i and self.enabled(i):
-                            cur = i
+                        if tgt == i:
+                            w = self.waiting.get(i)
+                            if w is not None and not w[0] and w[1] is not None and Clock.t < w[1]:
+                                # a preemption towards a thread sleeping until a deadline is the scheduler move "time passes":
+                                # the running thread was slow enough for the timed wait to expire
+                                Clock.t = w[1]
+                            if self.enabled(i):
+                                cur = i
             if cur >= len(self.done) or not self.enabled(cur):
                 nxt = [i for i in range(len(self.done)) if self.enabled(i)]
                 if not nxt:
